@@ -744,9 +744,9 @@ def run(tier, seed, replay):
         quick = tier == "quick"
         r = random.Random(seed)
         # 1. design-level model checking, in the background
-        jobs = [("StreamMC", "StreamMC.tla", "StreamMC.cfg" if quick else "StreamMC_t.cfg", 5, 240 if quick else 1500),
-                ("InputsMC", "InputsMC.tla", "InputsMC.cfg" if quick else "InputsMC_t.cfg", 4, 240 if quick else 1500),
-                ("ArgsMC", "ArgsMC.tla", "ArgsMC.cfg" if quick else "ArgsMC_t.cfg", 2, 240 if quick else 1500)]
+        jobs = [("StreamMC", "StreamMC.tla", "StreamMC.cfg" if quick else "StreamMC_t.cfg", 5 if quick else 8, 300 if quick else 2700),
+                ("InputsMC", "InputsMC.tla", "InputsMC.cfg" if quick else "InputsMC_t.cfg", 4 if quick else 5, 300 if quick else 2700),
+                ("ArgsMC", "ArgsMC.tla", "ArgsMC.cfg" if quick else "ArgsMC_t.cfg", 2 if quick else 3, 300 if quick else 2700)]
         if os.environ.get("C16_SKIPMC"):      # development only: conformance part alone
             jobs = []
         pool = cf.ThreadPoolExecutor(max_workers=1)
